@@ -402,5 +402,5 @@ def replay_seq(case):
 
 SUBCHECKS = [
     Sub("seq", sub_seq, quick={"n": 120}, thorough={"n": 2500}, shards_quick=4, shards_thorough=8, replay=replay_seq),
-    Sub("rule", sub_rule, quick={"n": 150}, thorough={"n": 4000}, shards_quick=8, shards_thorough=16, replay=replay_case),
+    Sub("rule", sub_rule, quick={"n": 150}, thorough={"n": 2500}, shards_quick=8, shards_thorough=16, replay=replay_case),
 ]
